@@ -412,6 +412,7 @@ def _parse_color_256(desc: str) -> int | None:
     231
     >>> _parse_color_256('g#80')
     244
+    >>> _parse_color_256('#0_0')
     """
     if len(desc) > 4:
         # keep the length within reason before parsing
@@ -424,7 +425,7 @@ def _parse_color_256(desc: str) -> int | None:
                 return None
             return num
 
-        if desc.startswith("#") and len(desc) == 4:
+        if desc.startswith("#") and len(desc) == 4 and _is_hex(desc[1:]):
             # color-cube coordinates
             if (rgb := int(desc[1:], 16)) >= 0:
                 b, rgb = rgb % 16, rgb // 16
@@ -490,8 +491,12 @@ def _parse_color_88(desc: str) -> int | None:
     79
     >>> _parse_color_88('g#80')
     83
+    >>> _parse_color_88('#ff0000')
+    64
+    >>> _parse_color_88('#12345g')
     """
-    if len(desc) == 7:
+    if len(desc) == 7 and desc.startswith("#") and _is_hex(desc[1:]):
+        # '#rrggbb': keep the high digit of each component
         desc = desc[0:2] + desc[3] + desc[5]
     if len(desc) > 4:
         # keep the length within reason before parsing
@@ -504,7 +509,7 @@ def _parse_color_88(desc: str) -> int | None:
                 return None
             return num
 
-        if desc.startswith("#") and len(desc) == 4:
+        if desc.startswith("#") and len(desc) == 4 and _is_hex(desc[1:]):
             # color-cube coordinates
             if (rgb := int(desc[1:], 16)) >= 0:
                 b, rgb = rgb % 16, rgb // 16
